@@ -355,6 +355,8 @@ Definition ps_restore_attribute (fe : ps_fenv) (attr : ps_key) (updv : bool) (no
         let ver := if updv then now else ps_m_version o in
         match rest with
         | [] =>
+          (* fix 587182ba: a top-level attribute without an entry is left alone *)
+          if negb (ps_dcontains attr og) then (true, o) else
           (true, {| ps_m_fields := ps_dset f (ps_coerce fi oldv) (ps_m_fields o); ps_m_orig := Some (ps_dremove attr og); ps_m_version := ver |})
         | _ :: _ =>
           if ps_is_empty cur then (false, o) else
